@@ -62,6 +62,12 @@ struct Shared {
 async fn write_task(mut a: Async<'static, FdX>, data: Rc<Vec<u8>>, mode: u8, max_chunk: usize, seed: u64, sh: Rc<Shared>) -> Async<'static, FdX> {
     let mut rng = Rng::new(seed ^ 0xabc);
     let mut off = 0usize;
+    if mode >= 4 {
+        // an operation in the other direction was begun and abandoned while pending (the losing branch of a
+        // select): its interest and waker are still in place when the task turns to writing
+        use futures::FutureExt;
+        let _ = a.readable().now_or_never();
+    }
     while off < data.len() {
         let n = (rng.range(1, max_chunk as u64) as usize).min(data.len() - off);
         let r: std::io::Result<usize> = match mode % 4 {
@@ -480,7 +486,7 @@ fn gen_case(args: &Args, case: u64) -> Case {
         transport: rng.below(2) as u8,
         writer_is_thread: who == 1,
         reader_is_thread: who == 2,
-        write_mode: rng.below(4) as u8,
+        write_mode: rng.below(8) as u8,
         read_mode: rng.below(5) as u8,
         max_chunk,
         blocking_before: rng.chance(1, 2),
